@@ -115,8 +115,9 @@ mod n {
                         let doc: Result<serde_json::Value, _> = serde_json::from_str(&stdout);
                         c.check("C01.stdout_is_one_json_document", doc.is_ok(), || format!("{} extra={}: standard output is not exactly one JSON document ({}); it starts with {:?}", name, extra, doc.as_ref().err().map(|e| e.to_string()).unwrap_or_default(), stdout.chars().take(60).collect::<String>()));
                         // the document (or, when other text surrounds it, nothing) loads as the library's model
+                        // (compared with the library's model itself, not with its own trip through JSON)
                         let loaded = Model::from_json(&stdout);
-                        let want = Model::from_json(&model.as_json().unwrap()).unwrap();
+                        let want = &model;
                         c.check("C01.same_model", matches!(&loaded, Ok(m) if format!("{:?}", m) == format!("{:?}", want)), || format!("{} extra={}: standard output does not load as the model the library yields ({})", name, extra, loaded.as_ref().err().map(|e| e.to_string()).unwrap_or_else(|| "different model".to_string())));
                         c.nontrivial(format!("{} {}", name, extra));
                         c.sample(|| format!("{} extra={}: exit 0, {} bytes, {} walls, {} overrides", name, extra, stdout.len(), want.walls.len(), want.overrides.walls.len() + want.overrides.windows.len()));
@@ -186,7 +187,7 @@ mod n {
             }
         }
         let work = tmp_dir("c19-extra");
-        drive("C19.extra_files", "collect_hulc_data(dir, use_kyg = true, use_tbl = true) on a copy of a shipped project whose KyGananciasSolares.txt or NewBDL_O.tbl has one damaged line (8 kinds; quick: cubo and casoA, every 6th line; thorough: all projects with result files, every 2nd line)", |c| {
+        drive("C19.extra_files", "collect_hulc_data(dir, use_kyg = true, use_tbl = true) on a copy of a shipped project whose KyGananciasSolares.txt or NewBDL_O.tbl has one damaged line (11 kinds; quick: cubo and casoA, every 6th line; thorough: all projects with result files, every 2nd line)", |c| {
             c.check("C19.extra.corpus", corpus.len() >= 6 && !slice.is_empty(), || format!("{} result files, {} lines in the slice", corpus.len(), slice.len()));
             let k = c.pick(slice.len());
             let kind = c.pick(DAMAGE_KINDS.len());
